@@ -227,10 +227,28 @@ def eval_cases(prop_id, suite_name, header, case_type, case_lines, checks):
 
 # --------------------------------------------------------------------------------------------
 def load_known_findings():
+    """known_findings.json + known_findings.d/*.json (committed files, never written at run time)."""
+    out = []
     p = os.path.join(VERIF, "known_findings.json")
-    if not os.path.exists(p):
-        return []
-    return json.load(open(p)).get("findings", [])
+    if os.path.exists(p):
+        out += json.load(open(p)).get("findings", [])
+    d = os.path.join(VERIF, "known_findings.d")
+    if os.path.isdir(d):
+        for f in sorted(os.listdir(d)):
+            if f.endswith(".json"):
+                j = json.load(open(os.path.join(d, f)))
+                out += j if isinstance(j, list) else j.get("findings", [])
+    return out
+
+
+def coqchk(modules, timeout=3000):
+    """Independent re-check of the compiled property modules (thorough tier)."""
+    t = time.time()
+    try:
+        r = sh(["coqchk", "-silent", "-o", "-R", COQ, "Exo"] + modules, timeout=timeout)
+    except subprocess.TimeoutExpired:
+        return None, "coqchk timeout", time.time() - t
+    return r.returncode == 0, r.stdout[-4000:], time.time() - t
 
 
 def write_evidence(prop_id, ev):
